@@ -375,10 +375,10 @@ STREAM(md_prog) {
         done++;
         // check after every operation, so that the first wrong step is reported
         std::string v = verify(c);
-        if (v != "ok") { fprintf(out.ops, "ca nop"); fprintf(out.real, "nop"); out.endcase(v); goto next; }
+        if (v != "ok") { fprintf(out.ops, "ca nop md_prog n=%lu program: %s", (unsigned long)c.n, c.trace.c_str()); fprintf(out.real, "nop"); out.endcase(v); goto next; }
       }
     }
-    fprintf(out.ops, "ca nop");
+    fprintf(out.ops, "ca nop md_prog n=%lu program: %s", (unsigned long)c.n, c.trace.c_str());
     fprintf(out.real, "nop");
     out.endcase("ok");
     out.count("ops", done);
